@@ -167,7 +167,8 @@ func runC17(c *Ctx) {
 		}
 		containsCase(c, fs, fmt.Sprintf("r%d", i), content, nd)
 	}
-	genC17b(c) // WriteFile / WriteReader / SafeWriteReader + ReadFile (c17b.go)
+	genC17b(c)
+	runC17OS(c) // WriteFile / WriteReader / SafeWriteReader + ReadFile (c17b.go)
 }
 
 func (r *Rng) shuffle(xs [][]byte) {
